@@ -203,13 +203,13 @@ def run(tier, seed, drv, scenarios=None):
             rng = rng_for(seed, PID, i)
             if i % 8 == 0:
                 scenarios.append(('rat', connective_family(rng)))
-            elif i % 16 == 3:
+            elif i % 32 == 3:
                 scenarios.append(('rat', pool_family(rng)))
-            elif i % 16 == 11:
+            elif i % 32 == 11:
                 scenarios.append(('rat', cancel_vs_timers(rng)))
-            elif i % 16 == 7:
+            elif i % 32 == 19:
                 scenarios.append(('rat', closed_services(rng)))
-            elif i % 16 == 15:
+            elif i % 32 == 27:
                 scenarios.append(('rat', spawn_spellings(rng)))
             elif i % 8 == 5:
                 # pipes (float time): transfers that overlap, are abandoned by deadlines / cancels and follow each other
